@@ -107,6 +107,9 @@ func c20seq(c *Ctx) {
 	if !ok {
 		return
 	}
+	if c.Shard == 0 {
+		c20failedOpens(c)
+	}
 	c.exh = true
 	idx := 0
 	var seq []byte
@@ -330,5 +333,63 @@ func thesLight(r *oracle.Report, tag string, s segment.Segment, m *model.Seg, rn
 		if n != len(th[term]) {
 			r.Fail("thes-missing", "%s: thesaurus %q term %q: %d pairs, want %d", tag, name, term, n, len(th[term]))
 		}
+	}
+}
+
+// c20failedOpens: an Open that fails must not keep the mapping or the
+// descriptor it acquired (it never hands out a reference). The files are
+// well formed up to the point named; the pinned reader rejects them with an
+// error.
+func c20failedOpens(c *Ctx) {
+	be64 := func(b []byte, v uint64) []byte {
+		return append(b, byte(v>>56), byte(v>>48), byte(v>>40), byte(v>>32), byte(v>>24), byte(v>>16), byte(v>>8), byte(v))
+	}
+	be32 := func(b []byte, v uint32) []byte { return append(b, byte(v>>24), byte(v>>16), byte(v>>8), byte(v)) }
+	legacy := func(dv []byte) []byte {
+		var buf []byte
+		buf = append(buf, 0x00, 0x01, 'a') // field record: dictLoc 0, name "a"
+		dvOff := uint64(len(buf))
+		buf = append(buf, dv...) // doc-value index
+		fieldsIdx := uint64(len(buf))
+		buf = be64(buf, 0)         // fields index: address of field record 0
+		buf = be64(buf, 1)         // numDocs
+		buf = be64(buf, 0)         // stored index offset
+		buf = be64(buf, fieldsIdx) // fields index offset
+		buf = be64(buf, dvOff)     // doc value offset
+		buf = be32(buf, 1024)      // chunk mode
+		buf = be32(buf, 15)        // version: pre-sections layout
+		buf = be32(buf, 0)         // crc (not checked on open)
+		return buf
+	}
+	ff := []byte{0xff, 0xff, 0xff, 0xff, 0xff, 0xff, 0xff, 0xff, 0xff, 0xff}
+	files := map[string][]byte{
+		"legacy-dv-start-overlong":  legacy(ff),
+		"legacy-dv-end-overlong":    legacy(append([]byte{0x05}, ff...)),
+		"legacy-dv-range-too-small": legacy([]byte{0x03, 0x05}),
+	}
+	for name, data := range files {
+		id := "failed-open-" + name
+		if !c.Case(id, map[string]interface{}{"file": name, "bytes": len(data)}) {
+			continue
+		}
+		path := c.Scratch.Path("c20bad-" + name)
+		os.WriteFile(path, data, 0600)
+		guard(c.R, id, func() {
+			for k := 0; k < 3; k++ {
+				s, err := zx.Open(path)
+				if err == nil {
+					// the reader accepted it: then it is an ordinary segment, close it
+					s.Close()
+					c.R.Inc("failed_open_files_accepted", 1)
+					break
+				}
+				c.R.Inc("failed_opens", 1)
+			}
+		})
+		if mp, fd := procState(path); mp || fd != 0 {
+			c.R.Fail("failed-open-leak", "%s: after failed Opens: mapped=%v fds=%d", id, mp, fd)
+		}
+		os.Remove(path)
+		c.End()
 	}
 }
